@@ -564,6 +564,7 @@ OUTSIDE_TEMPLATES = [
     ("mod5", "def f(a: Qint[4]) -> Qint[4]:\n    return a % 5\n", [["a", "Qint4"]], "Qint4"),
     ("mod6", "def f(a: Qint[4]) -> Qint[4]:\n    return a % 6\n", [["a", "Qint4"]], "Qint4"),
     ("modvar", "def f(a: Qint[4], b: Qint[4]) -> Qint[4]:\n    return a % b\n", [["a", "Qint4"], ["b", "Qint4"]], "Qint4"),
+    ("modvar_const", "def f(a: Qint[4]) -> Qint[4]:\n    b = 3\n    return a % b\n", [["a", "Qint4"]], "Qint4"),
     ("bool_plus_int", "def f(a: Qint[2], b: bool) -> Qint[2]:\n    return a + b\n", [["a", "Qint2"], ["b", "bool"]], "Qint2"),
     ("int_as_bool", "def f(a: Qint[2], b: bool) -> bool:\n    return a and b\n", [["a", "Qint2"], ["b", "bool"]], "bool"),
     ("not_int", "def f(a: Qint[2]) -> bool:\n    return not a\n", [["a", "Qint2"]], "bool"),
